@@ -16,10 +16,12 @@ func CompileToGetDecoder(typ *runtime.Type) (Decoder, error) {
 	initDecoder()
 	typeptr := uintptr(unsafe.Pointer(typ))
 	if typeptr > typeAddr.MaxTypeAddr {
+		verifSlot(false, 0, typeptr)
 		return compileToGetDecoderSlowPath(typeptr, typ)
 	}
 
 	index := (typeptr - typeAddr.BaseTypeAddr) >> typeAddr.AddrShift
+	verifSlot(true, index, typeptr)
 	decMu.RLock()
 	if dec := cachedDecoder[index]; dec != nil {
 		decMu.RUnlock()
